@@ -1,5 +1,6 @@
 (* C25  Tampered NTS packets are never accepted as authentic.
-   Property theorems only; proofs are in Proofs/Tamper.v.
+   Property theorems only; proofs are in Proofs/Tamper.v (first sentence) and
+   Proofs/Tamper2.v (second sentence).
 
    Cryptography is an ideal AEAD, given as an oracle [dec key nonce aad ct].
    The hypothesis [genuine] is the idealisation (forgery probability zero, one
@@ -16,8 +17,18 @@
 
    [reports_trusted r]: the decode result r carries a non-empty authenticated or
    encrypted field list, or recovered cookie keys (also when the result is the
-   packet returned inside a decrypt error). *)
-From V Require Import Model.Packet Proofs.Packet Proofs.Tamper.
+   packet returned inside a decrypt error).
+
+   [auth_of r], [enc_of r], [keys_of r]: the authenticated field list, the
+   encrypted field list (of an accepted packet or of the packet inside a decrypt
+   error; [] for any other result) and the recovered cookie keys (of an accepted
+   packet; None otherwise) of a decode result (Proofs/Tamper2.v).
+
+   [authenticator_at n0 a0 c0 b]: b carries a0 in [0,|a0|), 48 <= |a0|, and at
+   offset |a0| the decoder's own field streamer (the one the version in b's first
+   byte selects) reads an NTS authenticator field whose nonce is n0 and whose
+   ciphertext is c0: b is a packet produced for the tuple (n0, a0, c0). *)
+From V Require Import Model.Packet Proofs.Packet Proofs.Tamper Proofs.Tamper2.
 
 Definition genuine (dec : oracle) (n0 a0 c0 : bytes) : Prop :=
   forall key n a c p, dec key n a c = Some p -> a = [] \/ (n = n0 /\ a = a0 /\ c = c0).
@@ -39,11 +50,58 @@ Theorem C25_tampered_rejected : forall (dec : oracle) (n0 a0 c0 : bytes), genuin
 Proof. intros dec n0 a0 c0 Hg cx data Hn Hr. apply Hn. eapply tamper_protected; eassumption. Qed.
 
 (* Second sentence ("any other change never makes different content appear
-   authenticated or encrypted"): NOT proved as a theorem here (it needs the
-   determinism of the parse of the unchanged prefix); it is covered by the
-   correspondence check and its monitor (tools/props/c25.py), which compares the
-   reported lists with those of the unmodified packet at every byte position.
-   C25_rest_harmless is therefore missing: this file is _partial for C25. *)
+   authenticated or encrypted"), for all three key contexts.  b is the genuine
+   packet: it carries a0 and then its authenticator with n0 and c0, and it
+   decodes without error to o (accepted, or a decrypt error).  b' is ANY byte
+   string of the same length that agrees with it on the protected ranges (it may
+   differ in the authenticator's type / length / nonce-length / ciphertext-length
+   bytes, in its padding, and anywhere after it).  Then every field b' reports
+   as authenticated is one b reports as authenticated, every field b' reports as
+   encrypted is one b reports as encrypted (also inside a decrypt error), and
+   cookie keys recovered from b' are the ones recovered from b.
+   No assumption that b itself authenticates: if the receiver holds the wrong
+   key, or b's trusted content is empty, b' reports nothing either.
+   (The hypothesis [agrees n0 a0 c0 b'] is the property's wording; the proof
+   does not need it, see C25_rest_exact: a b' that does not agree reports
+   nothing, by C25_protected.)
+   Cookie keys: when b is a decrypt error (o = DecryptFailed, e.g. a second,
+   bad authenticator follows the genuine one) its result carries no keys, and
+   the last clause says nothing; a b' that repairs the part after the genuine
+   authenticator is then accepted with the keys of the genuine cookie. *)
+Theorem C25_rest_harmless : forall (dec : oracle) (n0 a0 c0 : bytes), genuine dec n0 a0 c0 ->
+  forall (cx : ctx) (b b' : bytes) (o : outcome),
+  authenticator_at n0 a0 c0 b -> deserialize dec cx b = Ok o ->
+  blen b' = blen b -> agrees n0 a0 c0 b' ->
+  (forall f, In f (auth_of (deserialize dec cx b')) -> In f (auth_of (Ok o))) /\
+  (forall f, In f (enc_of (deserialize dec cx b')) -> In f (enc_of (Ok o))) /\
+  (forall k, keys_of (deserialize dec cx b') = Some k -> forall p ck, o = Accept p ck -> ck = Some k).
+Proof. exact rest_harmless. Qed.
+
+(* the same, all or nothing, for EVERY b' of the same length: if b' reports
+   anything as trusted, its authenticated list and its encrypted list are exactly
+   those of b, and its cookie keys are those of b (or absent: decrypt error) *)
+Theorem C25_rest_exact : forall (dec : oracle) (n0 a0 c0 : bytes), genuine dec n0 a0 c0 ->
+  forall (cx : ctx) (b b' : bytes) (o : outcome),
+  authenticator_at n0 a0 c0 b -> deserialize dec cx b = Ok o -> blen b' = blen b ->
+  reports_trusted (deserialize dec cx b') ->
+  auth_of (deserialize dec cx b') = auth_of (Ok o) /\
+  enc_of (deserialize dec cx b') = enc_of (Ok o) /\
+  (forall p ck, o = Accept p ck ->
+     keys_of (deserialize dec cx b') = ck \/ keys_of (deserialize dec cx b') = None).
+Proof. exact rest_exact. Qed.
+
+(* without describing b by its bytes: any two byte strings of the same length
+   that both report something as trusted report the same lists (under the ideal
+   AEAD there is one genuine content per datagram length) *)
+Theorem C25_rest_equal : forall (dec : oracle) (n0 a0 c0 : bytes), genuine dec n0 a0 c0 ->
+  forall (cx : ctx) (b b' : bytes),
+  reports_trusted (deserialize dec cx b) -> blen b' = blen b ->
+  reports_trusted (deserialize dec cx b') ->
+  auth_of (deserialize dec cx b') = auth_of (deserialize dec cx b) /\
+  enc_of (deserialize dec cx b') = enc_of (deserialize dec cx b) /\
+  (forall p ck, deserialize dec cx b = Ok (Accept p ck) ->
+     keys_of (deserialize dec cx b') = ck \/ keys_of (deserialize dec cx b') = None).
+Proof. exact rest_equal. Qed.
 
 (* non-vacuity: a one-entry table oracle is [genuine]; the NTPv4 datagram
    header ++ unique-identifier field ++ authenticator field authenticates under
@@ -67,5 +125,43 @@ Proof.
   vm_compute. intros [H|H]; apply H; reflexivity.
 Qed.
 
+(* non-vacuity of the second sentence: the same genuine packet b carries its
+   authenticator at |a0| and is accepted with the identifier authenticated; b1
+   (a padding byte of the authenticator changed) has the same length, agrees,
+   differs from b and still reports exactly that field; b2 (the authenticator's
+   ciphertext-length byte changed) agrees too and reports nothing any more *)
+Example C25_rest_nonvacuous :
+  let hdr := 35 :: repeat 0 47 in
+  let a0 := hdr ++ [1; 4; 0; 16] ++ repeat 5 12 in
+  let n0 := [1; 2; 3; 4] in
+  let c0 := [9; 9; 9; 9] in
+  let b := a0 ++ [4; 4; 0; 28; 0; 4; 0; 4] ++ n0 ++ c0 ++ repeat 0 12 in
+  let b1 := a0 ++ [4; 4; 0; 28; 0; 4; 0; 4] ++ n0 ++ c0 ++ 7 :: repeat 0 11 in
+  let b2 := a0 ++ [4; 4; 0; 28; 0; 4; 0; 5] ++ n0 ++ c0 ++ repeat 0 12 in
+  let dec := table_dec [([7], n0, a0, c0, [])] in
+  let cx := ClientKey [7] in
+  genuine dec n0 a0 c0 /\ authenticator_at n0 a0 c0 b /\
+  (exists p ck, deserialize dec cx b = Ok (Accept p ck) /\ authenticated (p_ef p) = [EfUid (repeat 5 12)]) /\
+  blen b1 = blen b /\ agrees n0 a0 c0 b1 /\ b1 <> b /\
+  auth_of (deserialize dec cx b1) = [EfUid (repeat 5 12)] /\
+  blen b2 = blen b /\ agrees n0 a0 c0 b2 /\ ~ reports_trusted (deserialize dec cx b2).
+Proof.
+  cbv zeta. split; [intros key n a c p; apply table_single_genuine|].
+  split.
+  { split; [vm_compute; reflexivity|]. split; [vm_compute; discriminate|].
+    do 3 eexists. split; [vm_compute; reflexivity|]. split; vm_compute; reflexivity. }
+  split; [do 2 eexists; split; vm_compute; reflexivity|].
+  split; [vm_compute; reflexivity|].
+  split; [vm_compute; repeat split; reflexivity|].
+  split; [vm_compute; discriminate|].
+  split; [vm_compute; reflexivity|].
+  split; [vm_compute; reflexivity|].
+  split; [vm_compute; repeat split; reflexivity|].
+  vm_compute. intros [H|H]; apply H; reflexivity.
+Qed.
+
 Print Assumptions C25_protected.
 Print Assumptions C25_tampered_rejected.
+Print Assumptions C25_rest_harmless.
+Print Assumptions C25_rest_exact.
+Print Assumptions C25_rest_equal.
